@@ -347,8 +347,8 @@ pub fn monitor(tier: Tier) -> Monitor {
             "not judged (counted as lenient.*): a declared uncompressed size lowered onto a symbol boundary, and declared compressed sizes larger than needed - lzma-rs does not check that a chunk's bytes are all used; the statement lists 'needs more input than declared' only".into(),
         ],
         families: vec![
-            Family { name: "marker_in_chunk", count: tier.pick(300, 5000), priority: true, enumerated: false, run: fam_marker },
-            Family { name: "base_streams", count: tier.pick(500, 20_000), priority: false, enumerated: false, run: fam_base },
+            Family { name: "marker_in_chunk", count: tier.pick(2_000, 20_000), priority: true, enumerated: false, run: fam_marker },
+            Family { name: "base_streams", count: tier.pick(6_000, 120_000), priority: false, enumerated: false, run: fam_base },
         ],
         label,
         floors,
